@@ -395,8 +395,9 @@ fn apply(st: &mut State, step: &Step, counts: &mut Vec<&'static str>) -> Result<
             let v: OptionView<u64> = unsafe { std::ptr::read(&some as *const _ as *const OptionView<u64>) };
             vcheck!(v.tag == 1 && v.some == x, "layout.option", "COption", "Some({:#x}) seen from C as tag={} payload={:#x}", x, v.tag, v.some);
             let none: COption<u64> = None.into();
-            let v: OptionView<u64> = unsafe { std::ptr::read(&none as *const _ as *const OptionView<u64>) };
-            vcheck!(v.tag == 0, "layout.option", "COption", "None seen from C as tag={}", v.tag);
+            // (a C caller reads the tag first; the payload of None is no value at all)
+            let tag: u32 = unsafe { std::ptr::read(&none as *const _ as *const u32) };
+            vcheck!(tag == 0, "layout.option", "COption", "None seen from C as tag={}", tag);
             let made: COption<u64> = unsafe { cview::view(OptionView { tag: 1u32, some: x }) };
             vcheck!(Option::from(made) == Some(x), "layout.option", "COption", "C-made Some not read back");
             let made: COption<u64> = unsafe { cview::view(OptionView { tag: 0u32, some: 0u64 }) };
